@@ -27,7 +27,7 @@ def check_abstraction(case, abstract, r):
 
 
 def describe(case):
-    return "%s %s%s%s default=%s env=%s argv=%s" % (case["type"], case["role"], " (Ptr)" if case["ptr"] else "", " (convenience method)" if case.get("conv") else "", json.dumps(case["default"]),
+    return "%s %s%s%s%s default=%s env=%s argv=%s" % (case["type"], case["role"], " (Ptr)" if case["ptr"] else "", " (convenience method)" if case.get("conv") else "", " (shared with a sibling command declared %s)" % ("after it" if case["siblings"] == 1 else "before it") if case.get("siblings") else "", json.dumps(case["default"]),
                                                     [(e["state"], e["value"]) for e in case["envs"]], case["argv"] if "argv_hex" not in case else "hex%s" % case["argv_hex"])
 
 
